@@ -20,87 +20,87 @@ CHECKS = {
     "C01": dict(
         engine="S", category="model_checking", design="3/C01",
         technique="explicit-state bounded exhaustive exploration of the real runtime (all pattern lists x all call histories) in lock-step with a reference model",
-        text="Every pattern list over all 8 predicates of a 3-value domain (length <= 2 quick / <= 3 thorough), six clause forms, five contexts, strict and partial, and every call history up to depth 3 (quick) / 5 (thorough) is executed on a fresh real mock; each step's answering pattern, panic class and the match counters of every pattern of every method are compared with the model. Thorough repeats the quick space on the no_std+spin-lock build.",
+        text="Every pattern list over all 8 predicates of a 3-value domain (length <= 2 quick / <= 3 thorough), six clause forms, five contexts, strict and partial, and every call history up to depth 3 (quick) / 5 (thorough) is executed on a fresh real mock; each step's answering pattern, panic class and the match counters of every pattern of every method are compared with the model. Added families: pattern lists of 21-48 clauses spread over several methods (for every k the k-th pattern is the first that accepts), n patterns composed as one real n-tuple for every arity 2..16, and same-named generic methods of two traits in one module. Every clause list is composed through unimock's own tuple impls. Both tiers also run on the no_std+spin-lock build.",
         note=S_NOTE),
     "C02": dict(
         engine="S", category="model_checking", design="3/C02",
         technique="bounded exhaustive enumeration of quantifier chains x match counts x call routings on the real runtime, lock-step with a reference model",
-        text="All response chains of <= 2 (quick) / <= 3 (thorough) segments over 7 response kinds and all quantifiers incl. zero counts, in the four entry forms, on a method with and without real function / default body; every match count from 0 to past the chain end; every routing of the first calls over original and clone. Each call's response is compared with the model's segment formula; single-use values must panic on the second request.",
+        text="All response chains of <= 2 (quick) / <= 3 (thorough) segments over 7 response kinds and all quantifiers incl. zero counts, in the four entry forms, on a method with and without real function / default body; every match count from 0 to past the chain end; every routing of the first calls over original and clone. Each call's response is compared with the model's segment formula; single-use values must panic on the second request. Ordered chains are also placed behind another ordered clause (slot range not starting at 0). Composite outputs (Option, Result, Vec, Option<Result<&T,E>>, Poll<Result<&T,E>>, (T,&T), String) x six configuration paths x three requests: single-use paths yield once then refuse, repeatable paths yield every time. Both tiers also run on the no_std+spin-lock build.",
         note=S_NOTE),
     "C03": dict(
         engine="S", category="model_checking", design="3/C03",
         technique="bounded exhaustive exploration of clause sets x call histories on the real runtime; verdict line multiset compared with a reference model",
-        text="Clause sets of <= 2 (quick) / <= 3 (thorough) patterns in every quantifier form (open, some_call, exact, at-least, exact-then-open/exact/at-least, ordered counts), all histories up to depth 4 / 6; verification by drop after every history and by verify() and Termination::report() once per distinct final state. The multiset of failure lines (pattern name, kind, bound, actual) must equal the model's; silence iff no expectation is unmet.",
+        text="Clause sets of <= 2 (quick) / <= 3 (thorough) patterns in every quantifier form (open, some_call, exact, at-least, exact-then-open/exact/at-least, ordered counts), all histories up to depth 4 / 6; verification by drop after every history and by verify() and Termination::report() once per distinct final state. The multiset of failure lines (pattern name, kind, bound, actual) must equal the model's; silence iff no expectation is unmet. Histories with calls beyond the end of an exactly quantified chain are judged too (their response is unspecified, their count is not); forms include exactly-0, some_call + at_least, answers that park a clone of the mock in the instance; report() is also taken after no_verify_in_drop(). Both tiers also run on the no_std+spin-lock build.",
         note=S_NOTE + " Line order across methods is unspecified and not compared."),
     "C04": dict(
         engine="S", category="model_checking", design="3/C04",
         technique="explicit-state search over accepted call prefixes of every ordered clause sequence on the real runtime, lock-step with a reference model",
-        text="Every sequence of <= 2 (quick) / <= 3 (thorough) ordered clauses over two methods, three predicates, counts 0..3 and response chains inside a slot range, with an unordered clause (open or exactly quantified) at every position; every model-accepted prefix is extended by every possible call; slot ranges after assembly, the response of each accepted call, the panic class and named pattern of each deviating call, the global index and the final verdict are compared.",
+        text="Every sequence of <= 2 (quick) / <= 3 (thorough) ordered clauses over two methods, three predicates, counts 0..3 and response chains inside a slot range, with an unordered clause (open or exactly quantified) at every position; every model-accepted prefix is extended by every possible call; slot ranges after assembly, the response of each accepted call, the panic class and named pattern of each deviating call, the global index and the final verdict are compared. Added families: the disjunctive matcher form (a later alternative must be accepted in order), deviations on methods with a real function in strict and partial mocks, n ordered clauses composed as one real n-tuple for every arity 2..16. Both tiers also run on the no_std+spin-lock build.",
         note=S_NOTE + " Behaviour after the first deviating call is unspecified and not explored."),
     "C07": dict(
         engine="S", category="model_checking", design="3/C07",
         technique="exhaustive enumeration of the fall-through decision table x call histories on the real runtime, lock-step with a reference model",
-        text="The complete table {strict, partial} x {plain, default body, real fn, both, Termination::report} x {unmentioned, unordered-unmatched (three forms), ordered-unmatched, explicit unmock, explicit default impl} x arguments x positions in histories of depth 2 (quick) / 3 (thorough): the predicted body runs exactly once with the caller's argument (side-effect log), otherwise the predicted panic class; no value is fabricated; counters are unchanged by unmatched calls.",
+        text="The complete table {strict, partial} x {plain, default body, real fn, both, Termination::report} x {unmentioned, unordered-unmatched (three forms), ordered-unmatched, explicit unmock, explicit default impl} x arguments x positions in histories of depth 2 (quick) / 3 (thorough): the predicted body runs exactly once with the caller's argument (side-effect log), otherwise the predicted panic class; no value is fabricated; counters are unchanged by unmatched calls. Added cells: a trait whose first item is a receiver-less provided fn, &mut self / Pin<&mut Self> methods with and without real function and default body, composite outputs whose single-use response is exhausted (refused, never replaced by an empty variant). Thorough: depth 4. Both tiers also run on the no_std+spin-lock build.",
         note=S_NOTE),
     "C10": dict(
         engine="T", category="model_checking", design="3/C10",
         technique="stateless model checking of the real code: controlled scheduler over real threads, depth-first enumeration of all interleavings within a preemption bound",
-        text="2-4 real threads making 1-3 calls each on clones or a shared &Unimock in seven scenario families (response chain, overlapping exact patterns, ordered ranges with inner chain, ordered across methods, single-use value, ordered+unordered, slot overrun). Every schedule with <= 2 preemptions (quick), <= 3 plus unbounded for 2-thread scenarios (thorough) runs to completion; on each: per-pattern position multiset, slot bookkeeping, final counters and verdict equal to some sequential execution of the real mock, no deadlock. Failures are replayed twice before being reported.",
+        text="2-4 real threads making 1-3 calls each on clones or a shared &Unimock in nine scenario families (response chain, overlapping exact patterns, ordered ranges with inner chain, ordered across methods, single-use value, ordered+unordered, slot overrun, answers produced through a reference lent by the shared instance, several refused calls at once). Every schedule with <= 2 preemptions (quick), <= 3 plus unbounded for 2-thread scenarios (thorough) runs to completion; on each: per-pattern position multiset, slot bookkeeping, final counters and verdict equal to some sequential execution of the real mock, every mock-induced panic renders the call of the thread that observed it, no deadlock. Scheduling points are all operations of the instrumented AtomicUsize / Mutex / OnceCell types. Failures are replayed twice before being reported.",
         note=T_NOTE),
     "C08": dict(
         engine="S+T", category="model_checking", design="3/C08",
         technique="bounded exhaustive exploration of call histories over all mock-error kinds x instance/thread routings on the real runtime (lock-step model), plus stateless model checking of concurrent panicking calls under a controlled scheduler",
-        text="Sequential: every history of depth 2 (all four routings: original/clone x caught/propagated to a thread boundary), depth 3 (quick: one routing; thorough: all) and depth 4 (thorough, two routings) over 16 calls covering 11 mock-error kinds, 3 user-panic origins and accepted calls; after dropping the clones the original's verification must fail iff the model saw a mock-induced panic and then contain every such panic's text in order; otherwise exactly the expectation lines. Concurrent: 2-3 threads x 1-2 panicking calls on clones, every schedule with <= 2 (quick) / <= 3 (thorough) preemptions: number of recorded errors equals number of mock-induced panics and the verdict text carries each thread's errors in program order. Thorough repeats the sequential half on the no_std+spin-lock build (clone-induced errors only, as the property says).",
+        text="Sequential: every history of depth 2 (all four routings: original/clone x caught/propagated to a thread boundary), depth 3 (quick: one routing; thorough: all) and depth 4 (thorough, two routings) over 16 calls covering 11 mock-error kinds, 3 user-panic origins and accepted calls; after dropping the clones the original's verification must fail iff the model saw a mock-induced panic and then contain every such panic's text in order; otherwise exactly the expectation lines. Concurrent: 2-3 threads x 1-2 panicking calls on clones, every schedule with <= 2 (quick) / <= 3 (thorough) preemptions: number of recorded errors equals number of mock-induced panics and the verdict text carries each thread's errors in program order. Every error kind is also raised by zero-argument methods. Both tiers repeat the sequential half on the no_std+spin-lock build: errors induced through clones are reported as with std; after a mock-induced panic on the original its verification must be silent (documented).",
         note=S_NOTE + " " + T_NOTE),
     "C09": dict(
         engine="S", category="model_checking", design="3/C09",
         technique="explicit-state BFS over lifecycle event sequences on the real objects, states merged on the lifecycle model state which is checked against the implementation snapshot after every event",
-        text="Events: clone(i), drop(i), call(i), failing call(i), provided-method call(i) (internal helper clone), make_ref(i, clone of i), verify(i), report(), no_verify_in_drop(i), move the original to another thread and drop / verify it; <= 4 instances. Every event's outcome (silent / value / which refusal / failed-with-errors / failed-with-expectations / exit code) must equal the lifecycle model's, and the H3 instance() snapshot (original flag, verify-in-drop flag, live handle count, helper present, lent values) of every live instance must equal the model state. Quick: depth 6; thorough: to the fixpoint - the complete reachable state space within the caps (109,788 states on the pinned tree).",
-        note="Oracle = lifecycle model in harness/vh/src/bin/c09.rs derived from the property statement; states merged up to permutation of clone slots (events are symmetric in clone identity). std build only; report() on a clone is unspecified and not in the alphabet."),
+        text="Events: clone(i), drop(i), call(i), failing call(i), provided-method call(i) (internal helper clone), by-value provided-method call(i), make_ref(i, clone of i), verify(i), report(), report() on a clone, no_verify_in_drop(i), move the original to another thread and drop / verify it; <= 4 instances. Every event's outcome (silent / value / which refusal / failed-with-errors / failed-with-expectations / exit code) must equal the lifecycle model's, and the H3 instance() snapshot (original flag, verify-in-drop flag, live handle count, helper present, lent values) of every live instance must equal the model state. Quick: depth 6; thorough: to the fixpoint - the complete reachable state space within the caps (109,788 states on the pinned tree). Differential probes: every history (up to length 6 / 9) that ends in an already known model state is still extended by every single enabled event, so that implementation state invisible to the snapshot cannot hide behind state merging.",
+        note="Oracle = lifecycle model in harness/vh/src/bin/c09.rs derived from the property statement; states merged up to permutation of clone slots (events are symmetric in clone identity). std build only; when clones are alive and the thread is foreign either refusal is accepted."),
     "C12": dict(
         engine="S+T+G", category="model_checking", design="3/C12",
         technique="bounded exhaustive enumeration of return shapes x configuration paths x request routings with instrumented tokens on the real runtime; stateless model checking of racing requests under a controlled scheduler; exhaustive sweep of builder call chains against rustc",
-        text="Instrumented tokens count constructions, clones and drops. Every shape (plain, Option, Result both arms, Result<&T,Tok>, (&T,Tok,Tok), Option/Vec/Poll of Result<&str,Tok>, and Clone twins) x every single-use path (some_call/next_call returns, .once(), .once().then()) and multi-use path (each_call, n_times(1..3), at_least_times, single-use head + multi-use tail) x every routing of 0..3 (quick) / 0..4 (thorough) requests over original and clone: first request gets exactly the configured structure, every later request of a single-use value panics, one clone per multi-use request, nothing dropped before delivery / teardown, everything dropped exactly once. Race: 2-4 threads requesting one single-use value, all schedules within the preemption bound: exactly one winner, losers panic, one drop.",
+        text="Instrumented tokens count constructions, clones and drops. Every shape (plain, Option, Result both arms, Result<&T,Tok>, (&T,Tok,Tok), Option/Vec/Poll of Result<&str,Tok>, and Clone twins) x every single-use path (some_call/next_call returns, .once(), .once().then()) and multi-use path (each_call, n_times(1..3), at_least_times, single-use head + multi-use tail) x every routing of 0..3 (quick) / 0..4 (thorough) requests over original and clone: first request gets exactly the configured structure, every later request of a single-use value panics, one clone per multi-use request, nothing dropped before delivery / teardown, everything dropped exactly once. Partial mocks with a real function: an exhausted single-use value refuses, the real function is not called. Race: 2-4 threads requesting one single-use value (plain, tuple with two owned leaves, Vec/Option/Poll/Result composites), all schedules within the preemption bound: exactly one winner, losers panic, one drop. Both tiers also run on the no_std+spin-lock build.",
         note=S_NOTE + " " + T_NOTE + " Duplication of a non-Clone value itself is excluded by the type system (forbid(unsafe_code))."),
     "C13": dict(
         engine="S+T", category="model_checking", design="3/C13",
         technique="bounded exhaustive enumeration of lending operation sequences on the real runtime with instrumented payloads; stateless model checking of concurrent make_ref under a controlled scheduler",
-        text="All sequences of length 4 (quick) / 6 (thorough) over {make_ref<P1>, make_ref<P2>, borrowed returns() call, answer using make_ref, provided method lending through the delegation helper, make_mut<P1>, answer using make_mut, &mut provided method} x {original, clone}: after every step every held reference still reads its own intact payload, addresses are pairwise distinct, only what an exclusive operation on the same instance releases has been dropped; at the end everything is dropped exactly once, clone-owned values with the clone. Long chains of 1024 and 4096 values on a 2 MiB stack. Concurrent: 2-3 threads x 1-3 make_ref on one shared &Unimock, all schedules at the OnceCell insertion points within the bound.",
+        text="All sequences of length 4 (quick) / 6 (thorough) over {make_ref<P1>, make_ref<P2>, borrowed returns() call, answer using make_ref, provided method lending through the delegation helper, make_mut<P1>, answer using make_mut, &mut provided method} x {original, clone}: after every step every held reference still reads its own intact payload, addresses are pairwise distinct, only what an exclusive operation on the same instance releases has been dropped; at the end everything is dropped exactly once, clone-owned values with the clone. Zero-sized lent values with drop glue. Long chains of 1 024 - 20 000 values lent and released on 64 KiB - 2 MiB stacks, in child processes. Concurrent: 2-3 threads x 1-3 make_ref on one shared &Unimock, all schedules at the operations of the instrumented OnceCell within the bound. Thorough: length 7. Both tiers also run on the no_std+spin-lock build.",
         note="Trusted: once_cell's synchronisation; the harness keeps raw pointers only to values the property says are still lent. " + T_NOTE),
     "C18": dict(
         engine="S", category="model_checking", design="3/C18",
         technique="exhaustive enumeration of metamorphic relation instances (clause shuffles, call routings, interleaved twin mocks, generic instantiations) with a differential oracle on the real runtime",
-        text="(a) two base lists of 6 clauses, every sublist of >= 2 clauses, every admissible shuffle x every history of depth 3 (quick) / 4 (thorough); (b) every history x every assignment of its calls to original / clone 1 / clone 2; (c) every pair of depth-2 histories x every interleaving on two mocks built from the same clauses; (d) every pattern list over two instantiations of a generic method x every call sequence. Compared with the baseline run: every call's outcome (value or panic text), all counters, ordered index, recorded errors, verdict line multiset.",
+        text="(a) two base lists of 6 clauses, every sublist of >= 2 clauses, every admissible shuffle x every history of depth 3 (quick) / 4 (thorough); (b) every history x every assignment of its calls to original / clone 1 / clone 2; (c) every pair of depth-2 histories x every interleaving on two mocks built from the same clauses; (d) every pattern list over two instantiations of a generic method x every call sequence; (e) same-named generic methods of two traits in one module: every subset configured in every clause order x every call pair. Compared with the baseline run: every call's outcome (value or panic text), all counters, ordered index, recorded errors, verdict line multiset.",
         note="Pure differential oracle: the baseline run of the real mock is the expected value; no reference model involved."),
     "C05": dict(
         engine="G", category="exploration", design="3/C05",
         technique="exhaustive enumeration of a bounded grammar of trait declarations; every generated program is compiled against the working tree and checks itself",
-        text="Receiver {&self,&mut self,self,Rc,Arc,Pin} x parameter lists (all lists of arity <= 2 over 7 kinds incl. &mut, &str, slices, Option<&T>; arity 3..5 with <= 2 deviations) x return {unit, owned, &T} x {sync, async fn, -> impl Future, #[async_trait]} x generics {none, method, trait, impl Trait} x api {module, flattened, hidden}. A recording matcher and an answer function must both see the caller's pairwise-distinct arguments in order, the result returns unchanged (answers and returns paths), &mut writes are visible, a future dropped unpolled evaluates nothing and an awaited one exactly once. Quick ~1.3k shapes, thorough ~3.9k.",
+        text="Receiver {&self,&mut self,self,Rc,Arc,Pin} x parameter lists (all lists of arity <= 2 over 7 kinds incl. &mut, &str, slices, Option<&T>; arity 3..5 with <= 2 deviations) x return {unit, owned, &T} x {sync, async fn, -> impl Future, #[async_trait]} x generics {none, method, trait, impl Trait} x api {module, flattened, hidden}. A recording matcher and an answer function must both see the caller's pairwise-distinct arguments in order, the result returns unchanged (answers and returns paths), &mut writes are visible, a future dropped unpolled evaluates nothing and an awaited one exactly once. Also traits whose first item is a receiver-less provided fn. Quick ~1.3k shapes, thorough ~3.9k.",
         note=G_NOTE),
     "C06": dict(
         engine="G", category="exploration", design="3/C06",
         technique="exhaustive enumeration of a catalogue-driven grammar of matching! invocations, each evaluated on its whole finite argument domain against a native Rust match",
-        text="Sub-patterns of 11 argument types (literals, ranges, wildcards, bindings, @-bindings, or-patterns, tuple/struct/enum/Option patterns, slice patterns with rest, string literals against &str/String/AsRef<str> newtype, bare unit variants, eq!/ne!), 1-3 arguments, simple and disjunctive form (2-4 alternatives, every pair over a sub-pattern set with eq!/ne! in all positions), guards incl. || combined with eq!/ne!, mixed literal kinds per position. Every argument tuple of the domain in three modes (unordered strict, unordered with fallback, ordered) must be accepted iff the emitted native match accepts it.",
+        text="Sub-patterns of 11 argument types (literals, ranges, wildcards, bindings, @-bindings, or-patterns, tuple/struct/enum/Option patterns, slice patterns with rest, string literals against &str/String/AsRef<str> newtype, bare unit variants, eq!/ne!), 1-3 arguments, simple and disjunctive form (2-4 alternatives, every pair over a sub-pattern set with eq!/ne! in all positions), guards incl. || combined with eq!/ne!, mixed literal kinds per position. Every argument tuple of the domain in three modes (unordered strict, unordered with fallback, ordered) must be accepted iff the emitted native match accepts it. Also: guards that read state outside the arguments (arity 0..2, evaluated per call), disjunctions whose alternatives differ only inside a struct / enum / tuple pattern or in their path, three and four alternatives as documented.",
         note=G_NOTE + " Two genuine defects found by this check were fixed in /repo (guard precedence, three alternatives)."),
     "C11": dict(
         engine="F", category="fault_enumeration", design="3/C11",
         technique="exhaustive crash-point enumeration: one child process per (panic origin x instance topology x expectation) cell, exit status and panic reports judged by the parent",
-        text="20 panic origins (before/after calls, matcher, answer, real function, default body, argument Debug, return Clone, every mock-induced error kind, by-value default body) x 12 topologies (plain, clone outliving / dying first, clone parked on another thread, Box/Rc/Arc, foreign creator thread with and without clone, origin on a worker thread holding a clone or the original, caught-and-continue) x expectation met/unmet = 413 cells. No child may die by signal; exit status and number of panic reports must be what the cell implies; the first report is the injected panic, none is one of teardown's own sentences; caught cells keep working and verify according to the calls actually matched.",
+        text="23 panic origins (before/after calls, matcher, ordered matcher, answer, real function, default body, a mock error inside a default body, argument Debug, return Clone, every mock-induced error kind, by-value default body, a caught clone error followed by a user panic) x 15 topologies (plain, clone outliving / dying first, clone parked on another thread, Box/Rc/Arc, foreign creator thread with and without clone, origin on a worker thread holding a clone or the original, caught-and-continue, caught-and-repeat-the-same-call, original inside a guard whose Drop calls verify() with and without a live clone) x expectation met/unmet = 569 cells. No child may die by signal; exit status and number of panic reports must be what the cell implies; the first report is the injected panic, none is one of teardown's own sentences; caught cells keep working and verify according to the calls actually matched.",
         note="std build; a double panic is observed as SIGABRT of the child. The table is enumerated completely in both tiers."),
     "C14": dict(
         engine="G+S", category="exploration", design="3/C14",
         technique="exhaustive enumeration of tuple shapes / offending-clause positions (generated self-checking programs) plus an exhaustive sweep of builder call chains against rustc",
-        text="Order: every flat tuple arity 2..16, every nesting tree with <= 5 (quick) / 6 (thorough) leaves, unit elements at every position, every arity nested on either side: slot ranges after assembly are consecutive in declaration order, exactly the left-to-right call order is accepted, the leftmost overlapping unordered clause answers, final verification is silent. Rejection at construction: ordered+unordered clauses of one method at every pair of positions (all pairs for arities 2,3,8,16), both orders; empty stub at every position; single-use returns in the feature set without mutex. Compile time: every valid builder prefix up to length 3 / 5 extended by every builder method and by use-as-clause must be accepted / rejected by rustc exactly as the reference automaton says; 1- and 17-tuples rejected.",
+        text="Order: every flat tuple arity 2..16, every nesting tree with <= 5 (quick) / 7 (thorough) leaves, unit elements at every position, every arity nested on either side: slot ranges after assembly are consecutive in declaration order, exactly the left-to-right call order is accepted, the leftmost overlapping unordered clause answers (staggered overlaps check every position), ordered clauses interleaved with exactly quantified unordered ones and ordered clauses with exact counts 0..2 keep their sequence, final verification is silent. Rejection at construction: ordered+unordered clauses of one method at every pair of positions (quick: all pairs for arities 2,3,16; thorough: every arity), both orders, also with an ordered count of 0 or 2; empty stub at every position, also after an earlier mention of the method; single-use returns in the feature set without mutex, alone and inside response chains. Compile time: every valid builder prefix up to length 3 / 5 extended by every builder method and by use-as-clause must be accepted / rejected by rustc exactly as the reference automaton says; 1- and 17-tuples rejected.",
         note=G_NOTE),
     "C15": dict(
         engine="G", category="exploration", design="3/C15",
         technique="exhaustive enumeration of a bounded grammar of provided-method shapes; generated programs mix direct and delegated calls and compare with the generator's evaluator",
-        text="Receiver of the provided method x default body calling 0..3 required methods (plus a by-value required call, plus a lent reference) x signature {(u8), (u8,&str,&mut u32)} x {no clause, applies_default_impl()} x {strict, partial} x {unordered exact counts, one global ordered sequence}. History: direct call, delegated call, direct call, delegated call. The body runs once per call with the caller's arguments, results equal the body evaluated over the mock's answers, all required calls are counted on the shared state (H3), the ordered index advances as for direct calls, final verification is silent.",
+        text="Receiver of the provided method x default body calling 0..3 required methods (plus a by-value required call, plus a lent reference) x signature {(u8), (u8,&str,&mut u32)} x {no clause, applies_default_impl()} x {strict, partial} x {unordered exact counts, one global ordered sequence}. History: direct call, delegated call, direct call, delegated call. The body runs once per call with the caller's arguments, results equal the body evaluated over the mock's answers, all required calls are counted on the shared state (H3), the ordered index advances as for direct calls, final verification is silent. Also: verification by verify() and with an unmet expectation, a by-value receiver travelling through the default body, associated consts / types read by the default body (attribute overrides), a provided method that also has an unmock function.",
         note=G_NOTE + " Rc/Arc receivers are driven with the caller keeping a second handle."),
     "C16": dict(
         engine="G", category="exploration", design="3/C16",
         technique="exhaustive enumeration of a bounded grammar of unmock_with configurations; generated programs log the real function's invocations",
-        text="Receiver x parameter lists x unmock_with form {path, path(self,..), reordered, params only, _} x (methods in trait, position, skipped static fn in front) x {sync, async} x {strict + applies_unmocked, partial fall-through, partial mentioned-but-unmatched} x {required, provided with default body}; recursion depth 0..3 through the mock. The registered function runs exactly once per level with the mock and the caller's arguments in order, result unchanged, re-entrant calls hit the shared counters; `_` panics naming the method; unmentioned provided methods prefer the default body.",
+        text="Receiver x parameter lists x unmock_with form {path, path(self,..), reordered, params only, _} x (methods in trait, position, skipped static fn in front) x {sync, async} x {strict + applies_unmocked, partial fall-through, partial mentioned-but-unmatched} x {required, provided with default body}; recursion depth 0..3 through the mock. The registered function runs exactly once per level with the mock and the caller's arguments in order, result unchanged, re-entrant calls hit the shared counters; `_` panics naming the method; unmentioned provided methods prefer the default body; a provided sibling method in the trait changes nothing for a required method; the error of an unmock without function is about its own call also after another recorded error.",
         note=G_NOTE + " The genuine defect found here (&mut self / Pin receivers never unmocked) was fixed in /repo."),
     "C17": dict(
         engine="G", category="exploration", design="3/C17",
@@ -110,12 +110,12 @@ CHECKS = {
     "C19": dict(
         engine="G", category="exploration", design="3/C19",
         technique="exhaustive enumeration of parameter-type lists x error kinds and of sub-pattern tuples x failing argument tuples; generated programs compare exact message texts / parsed mismatch entries",
-        text="(A) parameter lists over 12 kinds (incl. &, &mut, &&, slices, non-Debug by value and reference, Option<&T>, generics with/without Debug) of arity 1-4 x 9 mock-induced error kinds: exact message predicted (call rendered with arguments in order, '?' without Debug, path only for missing real/default implementation). (B) every tuple of 2-3 sub-patterns over {literal, _, or-literals, eq!, ne!} x every failing argument tuple of {0,1,2}^n, unordered (1 and 2 patterns) and ordered: the report lists exactly the rejected positions with kind and actual value; ordered messages name the pattern by source text and file:line.",
-        note=G_NOTE + " Built without pretty-print. Messages of racing ordered calls are covered by C10's sequential-candidate oracle."),
+        text="(A) parameter lists over 12 kinds (incl. &, &mut, &&, slices, non-Debug by value and reference, Option<&T>, generics with/without Debug) of arity 1-4 x 9 mock-induced error kinds: exact message predicted (call rendered with arguments in order, '?' without Debug, path only for missing real/default implementation). Post-selection failures (explicit panic, exhausted single-use value, no output) raised by the second pattern of a method name that pattern (by index, or by source text and line). (B) every tuple of 2-3 sub-patterns over {literal, _, or-literals, eq!, ne!} and over Option<u8> sub-patterns incl. refutable bare identifiers x every failing argument tuple of the domain, unordered (1 and 2 patterns), ordered and ordered with a multi-line invocation: the report lists exactly the rejected positions with kind and actual value; ordered messages name the pattern by source text and file:line.",
+        note=G_NOTE + " Built without pretty-print. Messages under concurrency are covered by C10 (each panic renders its own call; sequential-candidate oracle)."),
     "C20": dict(
         engine="S-style", category="exploration", design="3/C20",
         technique="exhaustive enumeration of environment-answer scripts replayed by the mock and by a plain struct implementing the upstream trait (differential), plus the complete entry-point wiring table",
-        text="Wiring: all 83 methods of all mirrored traits (core fmt/hash, std error/io, tokio io, futures io, embedded-hal delay/digital/i2c/pwm/spi): a mock with a logging clause on every method; each method called through the upstream trait logs exactly itself. Composition: every script of length <= 3 (quick) / 4 (thorough) over chunk sizes {0,1,2,3}, payload chunks, Interrupted, Other through write_all/write_vectored/write!/flush, read_exact/read_to_end/read_to_string/read_vectored, read_until/read_line, rewind/stream_position, Hasher::write_*, format!, DelayNs::delay_us/ms, set_state, toggle, I2c read/write/write_read, SetDutyCycle::*, SpiDevice::*, tokio/futures vectored polls, strict and partial: identical results, buffers and required-method call sequences.",
+        text="Wiring: all 83 methods of all mirrored traits (core fmt/hash, std error/io, tokio io, futures io, embedded-hal delay/digital/i2c/pwm/spi): a mock with a logging clause on every method; each method called through the upstream trait logs exactly itself. Composition: every script of length <= 3 (quick) / 4 (thorough) over chunk sizes {0,1,2,3}, payload chunks, Interrupted, Other through write_all/write_vectored/write!/flush, read_exact/read_to_end/read_to_string/read_vectored, read_until/read_line, rewind/stream_position, Hasher::write_*, format!, DelayNs::delay_us/ms, set_state, toggle, I2c read/write/write_read, SetDutyCycle::*, SpiDevice::*, tokio/futures vectored polls, strict and partial: identical results, buffers and required-method call sequences (thorough: scripts <= 5). Also: the drivers on a clone living on another thread with report() on the original; provided methods that are mocked themselves (matching input: configured response; unmatched input on a strict mock: loud failure; no required-method call either way); 2 000 / 12 000-chunk scripts through read_until on 64 / 256 KiB stacks (child process); Debug and Display of self inside a delegated default body of a user trait; no_verify_in_drop + provided method + verify(); Error::source lending a derived mock.",
         note="Differential oracle = plain struct sharing the script function with the mock's answers; features mock-core, mock-std, mock-tokio-1, mock-futures-io-0-3, mock-embedded-hal-1."),
 }
 
